@@ -31,10 +31,11 @@
 EXTENDS Integers, Sequences, FiniteSets, TLC
 
 CONSTANTS Mode,      \* "vec": token sequences + payload lattice; "alphabet": one state per token kind; "none"
-          Alpha,     \* "quick" | "full": which alphabet the sequences of length <= MaxLen range over
-          MaxLen,    \* 0..4: every sequence over the alphabet up to this length
-          SmallAlpha,\* "core" | "quick": the alphabet of the longer sequences
-          CoreLen,   \* every sequence of length MaxLen+1..CoreLen over the small alphabet
+          Alpha,     \* "quick" | "full": the alphabet of the sequences whose length is in Lens
+          Lens,      \* subset of 0..5: every sequence over the alphabet of each of these lengths
+          SmallAlpha,\* "core" | "quick": the alphabet of the sequences whose length is in SmallLens
+          SmallLens, \* subset of 0..5
+          Lattice,   \* BOOLEAN: the payload lattice (encoder vectors) is part of the run
           AsWritten  \* TRUE: the machine skips a wrong-typed outer field 1 like payload.go does (documentation only)
 
 -----------------------------------------------------------------------------
@@ -162,6 +163,7 @@ Quick == Core \cup {
     K("d.cert.varint", "d", 1, "varint", "1",     ""),       \* wrong wire type
     K("d.resp.1",      "d", 3, "varint", "1",     ""),
     K("d.resp.M64",    "d", 3, "varint", "M64",   ""),       \* out of range
+    K("d.resp.bytes",  "d", 3, "bytes",  "empty", ""),       \* wrong wire type
     K("d.time.1",      "d", 5, "varint", "1",     ""),
     K("d.time.fixed64","d", 5, "fixed64","X",     ""),       \* wrong wire type
     K("d.ver.1",       "d", 8, "varint", "1",     ""),
@@ -199,6 +201,9 @@ Full == Quick \cup {
     K("d.unk.far",     "d", 2000, "varint", "1",  ""),       \* two-byte tag
     K("d.trunc.tag",   "d", 2000, "varint", "1",  "tag"),
     K("d.trunc.cert",  "d", 1, "bytes",  "A",     "val"),    \* length beyond the end
+    K("d.trunc.resp",  "d", 3, "varint", "M32",   "val"),
+    K("d.trunc.time",  "d", 5, "varint", "M64",   "val"),
+    K("d.trunc.ver",   "d", 8, "varint", "1",     "val"),
     K("d.trunc.unkbytes","d", 9, "bytes","A",     "val"),
     K("d.trunc.unkvarint","d", 9, "varint","M64", "val"),
     K("d.trunc.group", "d", 9, "group",  "G",     "val"),    \* group never closed
@@ -254,9 +259,9 @@ SeqsOf(A, n) ==
     \/ n = 5 /\ \E a \in A : \E b \in A : \E c \in A : \E d \in A : \E e \in A : Dec(<<a, b, c, d, e>>)
 
 Init ==
-    \/ Mode = "vec" /\ \E n \in 0..MaxLen : SeqsOf(Alphabet, n)
-    \/ Mode = "vec" /\ \E n \in (MaxLen + 1)..CoreLen : SeqsOf(Small, n)
-    \/ Mode = "vec" /\ \E p \in Payloads :
+    \/ Mode = "vec" /\ \E n \in Lens : SeqsOf(Alphabet, n)
+    \/ Mode = "vec" /\ \E n \in SmallLens : SeqsOf(Small, n)
+    \/ Mode = "vec" /\ Lattice /\ \E p \in Payloads :
            /\ in = [kind |-> "enc", ids |-> PSeq(p)]
            /\ exp = Expected(EncodeMsg(p))
     \/ Mode = "alphabet" /\ \E k \in Full :
